@@ -240,7 +240,8 @@ func (s *State) evalInternal(node any) object.Object { //nolint:funlen,gocognit,
 			return s.evalAssignment(s.Eval(node.Right), node)
 		}
 		// Humans expect left to right evaluations.
-		left := s.Eval(node.Left)
+		// (and the left value is the one from before the right side runs: not a live register, a + (a = 5))
+		left := object.CopyRegister(s.Eval(node.Left))
 		if left.Type() == object.ERROR {
 			return left
 		}
